@@ -130,6 +130,21 @@ def check_property(prop, tier, seed, jobs=None, write=True):
                 unknown.append((r, o))
     drifted_items = {r["name"] for r in drift}
     lost = [k for k in lock if k not in seen_keys and not any(k.startswith(n + ":") for n in drifted_items)]
+    # an obligation that is no longer generated because the function's SOURCE changed (e.g. a statement whose frame it
+    # was has been deleted) means the sidecar was written for other code: drift, decided by the bounded twin.  Only an
+    # obligation lost on unchanged source is a checker error.
+    changed_src = {r["name"] for r in reps if r["kind"] == "fn" and r.get("source_hash")
+                   and locked_hashes.get(r["name"]) not in (None, r["source_hash"])}
+    lost_by_change = [k for k in lost if any(k.startswith(n + ":") for n in changed_src)]
+    if lost_by_change:
+        lost = [k for k in lost if k not in lost_by_change]
+        for n in sorted({n for n in changed_src if any(k.startswith(n + ":") for k in lost_by_change)}):
+            r = next(x for x in reps if x["name"] == n)
+            if r["status"] == "ok":
+                r["status"] = "drift"
+                r["message"] = ("drift: the source of the function changed and obligations of its sidecar are no longer "
+                                "generated: " + ", ".join(k for k in lost_by_change if k.startswith(n + ":"))[:300])
+                drift.append(r)
     if lost and not status["error"]:
         status["error"].append(f"{len(lost)} obligations named in OBLIGATIONS.lock were not generated: {lost[:5]}")
 
